@@ -159,6 +159,16 @@ var MisfitKinds = []string{"err-hook-on-noerr-method", "wrong-dst-type", "wrong-
 
 // Gen builds one gensim world. kind is "normal", "noerr" or "misfit".
 func Gen(r *sim.Rng, kind string) (*sim.WorldSpec, *Meta) {
+	// "misfit=<kind>,<n>" pins the misfit kind and the number of additional arguments
+	forcedMisfit, forcedExtras := "", -1
+	if strings.HasPrefix(kind, "misfit=") {
+		parts := strings.SplitN(strings.TrimPrefix(kind, "misfit="), ",", 2)
+		forcedMisfit = parts[0]
+		if len(parts) == 2 {
+			fmt.Sscanf(parts[1], "%d", &forcedExtras)
+		}
+		kind = "misfit"
+	}
 	w := &sim.WorldSpec{Files: map[string]string{}, Setup: "mod/conv/setup.go"}
 	meta := &Meta{Kind: kind}
 	w.Files["mod/go.mod"] = "module example.com/g\n\ngo 1.19\n"
@@ -266,7 +276,12 @@ func Gen(r *sim.Rng, kind string) (*sim.WorldSpec, *Meta) {
 		case 3:
 			if r.Bool() {
 				mm.Extras = []string{"int", "string"}
+			} else {
+				mm.Extras = []string{"string", "string"}
 			}
+		}
+		if forcedExtras >= 0 {
+			mm.Extras = [][]string{nil, {"ms.Extra"}, {"int", "string"}}[forcedExtras%3]
 		}
 		if mm.Recv != "" && mm.Style == "return" {
 			// convergen emits `func (r T) F(, arg0 X)` for receiver + additional
@@ -392,6 +407,9 @@ func Gen(r *sim.Rng, kind string) (*sim.WorldSpec, *Meta) {
 		}
 		if kind == "misfit" {
 			mk := sim.Pick(r, MisfitKinds)
+			if forcedMisfit != "" {
+				mk = forcedMisfit
+			}
 			meta.Kind = "misfit:" + mk
 			which := sim.Pick(r, []string{"pre", "post"})
 			fn := "Bad" + mm.Name
